@@ -79,4 +79,22 @@ def binOf (n : Nat) (k : Rat) : Nat :=
       let d := if binCentre n i - k < 0 then k - binCentre n i else binCentre n i - k
       if d < best.2 then (i, d) else best) (0, if binCentre n 0 - k < 0 then k - binCentre n 0 else binCentre n 0 - k)).1
 
+/-- Python's `round` (half to even) on an exact rational -/
+def pyRound (q : Rat) : Int :=
+  let f := q.floor
+  let r := q - (f : Rat)
+  if r < 1/2 then f else if 1/2 < r then f + 1 else (if f % 2 = 0 then f else f + 1)
+
+/-- all first-minimisers candidates of `argmin |bincts − k|` (more than one only on an exact tie) -/
+def binCandidates (n : Nat) (k : Rat) : List Nat :=
+  let dist := fun i => if binCentre n i - k < 0 then k - binCentre n i else binCentre n i - k
+  let best := (List.range n).foldl (fun (b : Rat) i => if dist i < b then dist i else b) (dist 0)
+  (List.range n).filter (fun i => dist i = best)
+
+/-- `WangLandauMachine.__init__` (NORMAL mode): total number of bins on [0,1] and the relevant index range -/
+def wlConfig (binmin binmax : Rat) (nbins : Nat) : Nat × List Nat :=
+  let width := (binmax - binmin) / (nbins : Rat)
+  let n := (pyRound (1 / width)).toNat
+  (n, binCandidates n (binmin + width / 2))
+
 end Cider
